@@ -156,6 +156,34 @@ def run(repo, rep, tier):
         rep.check('exact', 'loader turns %s on only for the value "true"' % flag, okf, sets[0] if sets else init, 'flag parsing for %s changed' % flag)
     rep.check('exact', 'generated policy carries name and version (required by the loader)', re.search(r'^name = "', tmpl, re.M) is not None and re.search(r'^version = 1$', tmpl, re.M) is not None, pd[0], 'generated policy lacks name/version')
 
+    # ---- normalisation after loading only ADDS the fields create() trimmed; it never overwrites what the policy specifies ----
+    nz = repo.func('policy', 'Policy._normalize_hostkey_sizes')
+    rep.saw(nz)
+    nstores = 0
+    for n in walk_no_nested(nz):
+        if isinstance(n, ast.Assign) and isinstance(n.targets[0], ast.Subscript):
+            t = n.targets[0]
+            base = unparse(t.value)
+            if base == 'self._hostkey_sizes[host_key_type]' and isinstance(t.slice, ast.Constant):
+                nstores += 1
+                k = t.slice.value
+                guard = "'%s' not in self._hostkey_sizes[host_key_type]" % k
+                conds = [(unparse(c), p) for c, p, kind in path_condition(n) if kind == 'if']
+                rep.check('normalise', 'default for %r is stored only when the loaded policy lacks it' % k, (guard, True) in conds, n,
+                          'normalisation overwrites the %r the policy specifies (store not guarded by `%s`): CA type/size drift is then silently accepted' % (k, guard))
+            elif unparse(t) == 'self._hostkey_sizes[host_key_type]':
+                nstores += 1
+                v = n.value
+                ok = False
+                if isinstance(v, ast.Dict) and None in v.keys:
+                    # {**defaults, **entry}: the entry must come last so that its values win
+                    unpacked = [unparse(x) for kx, x in zip(v.keys, v.values) if kx is None]
+                    ok = bool(unpacked) and unpacked[-1] == 'self._hostkey_sizes[host_key_type]' and all(kx is None for kx in v.keys)
+                rep.check('normalise', 'merged entry keeps the policy\'s own values (defaults first, entry last)', ok, n,
+                          'normalisation rebuilds the entry as %s: defaults win over the CA type/size the policy specifies, so CA drift is silently accepted' % unparse(v)[:90])
+    rep.floor('normalise', 'stores in _normalize_hostkey_sizes', nstores, 1)
+    for fq, must in (('Policy.__init__', 'self._normalize_hostkey_sizes()'), ('Policy.load_builtin_policy', 'p._normalize_hostkey_sizes()')):
+        rep.check('normalise', '%s normalises the size map after loading' % fq, must in unparse(repo.func('policy', fq)), repo.func('policy', fq), '%s no longer normalises the loaded size map' % fq)
     # ---- rule 2: separator safety ---------------------------------------------------------------------------------------------
     db2 = ce.lookup('ssh2_kexdb', 'SSH2_KexDB.MASTER_DB')
     with_eq = sorted(n for cat in db2.values() for n in cat if '=' in n)
